@@ -120,8 +120,87 @@ def harnesses(tier):
         return [
             {'name': 'n3-missing-values-outside', 'fn': h, 'cfg': dict(BASE, n=3, est_none=True, spent_none=True, outside=True)},
             {'name': 'n4', 'fn': h, 'cfg': dict(BASE, n=4, spent_none=False)},
+            {'name': 'binary64-regression-menu', 'fn': h_float_menu, 'cfg': {}},
         ]
     return [
         {'name': 'n4-missing-values-outside', 'fn': h, 'cfg': dict(BASE, n=4, est_none=True, spent_none=True, outside=True)},
         {'name': 'n5', 'fn': h, 'cfg': dict(BASE, n=5, spent_none=False)},
     ]
+
+
+# ---------------------------------------------------------------------------
+# rounding clause: binary64 search harness (counterexample search only)
+
+def h_fp(cfg):
+    """Chains/forks of leaves with arbitrary binary64 estimates: every leaf on the exactly longest chain must be returned."""
+    from symx import xfp
+    shape = cfg['shapes'][choose('shape', len(cfg['shapes']))]
+    n = shape['n']
+    est = [xfp.fresh_float(f'fest{i}', 0.015625, cfg.get('hi', 1000.0)) for i in range(n)]
+    w = WBS()
+    tasks = [Task(i + 1, f't{i}', estimate=est[i]) for i in range(n)]
+    for t in tasks:
+        w.roots.append(t)
+    for a, b in shape['links']:
+        tasks[b].predecessors.append(tasks[a])
+    note('desc', f'binary64 estimates, links={shape["links"]}')
+    note('class', zlib.crc32(str(shape).encode()))
+    try:
+        res = list(w.critical_path())
+    except Exception as ex:
+        check(False, 'C12 critical_path raised', detail=type(ex).__name__)
+        return
+    got = [t.id - 1 for t in res]
+    # exact (real-valued) lengths of the maximal chains
+    if is_native():
+        from fractions import Fraction
+        val = [Fraction(e) for e in est]
+        tot = [sum(val[i] for i in ch) for ch in shape['chains']]
+        longest = max(tot)
+        for ch, tt in zip(shape['chains'], tot):
+            if tt == longest:
+                for i in ch:
+                    check(i in got, 'C12 result depends on floating-point rounding: a leaf of an exactly longest chain is missing',
+                          detail=f'chain {ch}')
+        return
+    real = [xfp.to_real(e) for e in est]
+    tot = [sum([real[i] for i in ch]) for ch in shape['chains']]
+    for k, ch in enumerate(shape['chains']):
+        is_longest = z3.And(*[tot[k] >= t for t in tot])
+        for i in ch:
+            if i not in got:
+                check(core.SymBool(z3.Not(is_longest)), 'C12 result depends on floating-point rounding: a leaf of an exactly longest chain is missing',
+                      detail=f'chain {ch}')
+            else:
+                check(True, 'C12 (leaf returned)')
+
+
+FP_SHAPES = [
+    {'n': 3, 'links': [(0, 1), (1, 2)], 'chains': [[0, 1, 2]]},
+    {'n': 3, 'links': [(0, 2), (1, 2)], 'chains': [[0, 2], [1, 2]]},
+]
+
+
+def h_float_menu(cfg):
+    """NOT solver-decided: the rounding clause ("insensitive to floating-point rounding") is beyond z3's floating-point
+    reach in both directions here (QF_FP decisions time out at 60 s, see DESIGN.md).  This menu of concrete binary64
+    inputs runs natively inside the same harness as a regression sample; it is reported as sampling, not as a verdict."""
+    menu = [
+        ([0.1, 0.2, 0.3], [(0, 1), (1, 2)], [0, 1, 2]),
+        ([0.1, 0.7, 0.2, 0.6], [(0, 1), (0, 2), (2, 3)], [0, 2, 3]),
+        ([1.1, 1.1, 1.1, 3.3], [(0, 1), (1, 2)], [0, 1, 2, 3]),
+        ([0.3, 0.6, 0.9], [(0, 1)], [0, 1, 2]),
+        ([1e-3, 2e-3, 3e-3], [(0, 1)], [0, 1, 2]),
+    ]
+    k = choose('menu', len(menu))
+    est, links, expected = menu[k]
+    note('desc', f'concrete binary64 estimates {est} links {links} (sample, not a solver verdict)')
+    note('class', k)
+    w = WBS()
+    tasks = [Task(i + 1, f't{i}', estimate=e) for i, e in enumerate(est)]
+    for t in tasks:
+        w.roots.append(t)
+    for a, b in links:
+        tasks[b].predecessors.append(tasks[a])
+    got = sorted(t.id - 1 for t in w.critical_path())
+    check(got == expected, 'C12 result depends on floating-point rounding (concrete regression sample)', detail=f'{est}: {got} vs {expected}')
